@@ -468,6 +468,8 @@ class BodyGen:
                 forms += ['match', 'matchdefault']
             if r.random() < 0.2:
                 forms += ['awaitcall']
+            if r.random() < 0.12:
+                forms += ['matchhalt', 'haltif']
             if in_loop:
                 forms += ['break', 'continue'] if ticked else ['break']
             if depth > 0 and r.random() < (0.3 if not out and not in_loop else 0.08):
@@ -498,6 +500,28 @@ class BodyGen:
                 out.append(('while', cond, self.simple()))
                 self.features.add('while-constant-false')
                 size -= 1
+            elif form in ('matchhalt', 'haltif'):
+                # `await false` under a run-time condition halts the coroutine; nothing behind it may execute in that clock
+                # or later.  'matchhalt': inside one case of a match whose other cases contain no transition at all
+                halt = ('if', [(self.eg.cond(1), (self.simple() if r.random() < 0.4 else []) + [('awaitfalse',)])], None)
+                subj = self.eg.readable(lambda o: o.kind in ('u', 'bv') and o.w is not None and o.w >= 2 and o.role in ('in', 'sig', 'out'))
+                if form == 'matchhalt' and subj:
+                    o = r.choice(subj)
+                    ssrc, sk = (o.src, o.kind) if o.w == 2 else (f"{o.src}[1:0]", 'bv')
+                    vals = r.sample(range(4), r.randint(1, 3))
+                    hi = r.randrange(len(vals))
+                    arms = []
+                    for i, v in enumerate(vals):
+                        b = ((self.simple() if r.random() < 0.5 else []) + [halt]) if i == hi else self.simple()
+                        arms.append((str(v) if sk == 'u' else f"'{v:02b}'", b))
+                    d = self.simple() if r.random() < 0.5 else None
+                    out.append(('match', ssrc, arms, d))
+                    self.features.add('halt-in-match-case')
+                else:
+                    out.append(halt)
+                    self.features.add('halt-under-if')
+                out += self.simple()
+                size -= 2
             elif form == 'awaittrue':
                 out.append(('awaittrue',))
                 self.features.add('await-true')
